@@ -932,6 +932,31 @@ pub proof fn axiom_prim_sizes()
 //@  impl_arg
 //@end
 
+
+// ---- SerIter (impls/iter.rs), C16: the wrapper feeds the recipes of the vector type ----------
+// The struct holds a `RefCell` around a generic iterator: it is extracted as an opaque
+// type (external_body); its hash implementations never touch the field.
+//@item epserde/src/impls/iter.rs name=SerIter optional <<pub struct SerIter<'a, T: 'a, I: ExactSizeIterator<Item = &'a T>>(RefCell<I>);>>
+//@  attr_before #[verifier::external_body] #[verifier::reject_recursive_types(T)] #[verifier::reject_recursive_types(I)]
+//@  replace <<RefCell>> <<core::cell::RefCell>>
+//@end
+
+//@item epserde/src/impls/iter.rs props=C04,C16 name=SerIter::TypeHash optional back=impl <<TypeHash for SerIter<'a, T, I>>>
+//@  body_prefix
+//@|    open spec fn th() -> Seq<HItem> { Vec::<T>::th() }
+//@  sub <<fn type_hash(>>
+//@  impl_arg
+//@end
+
+//@item epserde/src/impls/iter.rs props=C04,C16 name=SerIter::AlignHash optional back=impl <<AlignHash for SerIter<'a, T, I>>>
+//@  body_prefix
+//@|    open spec fn ah(off: nat) -> Seq<HItem> { Vec::<T>::ah(off) }
+//@|    open spec fn ah_off(off: nat) -> nat { Vec::<T>::ah_off(off) }
+//@|    open spec fn ah_fits(off: nat) -> bool { Vec::<T>::ah_fits(off) }
+//@  sub <<fn align_hash(>>
+//@  impl_arg
+//@end
+
 //@item @expanded props=C04,C06 name=tuple2::AlignHash optional <<impl<T: @@> AlignHash for (T, T) {>>
 //@  body_prefix
 //@|    open spec fn ah(off: nat) -> Seq<HItem> { T::ah(off) + T::ah(T::ah_off(off)) }
